@@ -4,5 +4,5 @@ CONSTANTS
  NSlots = 2  MaxStreams = 2  MaxRecs = 2
  USizes <- MCU  VSizes <- MCV  Pads <- MCP  FlagSet <- MCF
 CONSTRAINT Bounded
-INVARIANTS InvValid InvChecks InvIterFull InvItems InvIterNext InvLocate InvOps
+INVARIANTS InvValid InvChecks InvIterFull InvItems InvIterNext InvLocate InvOps InvDup InvEncDec
 CHECK_DEADLOCK FALSE
